@@ -26,6 +26,21 @@ CHECKS = {
  "C07": ("runtime monitor: panic monitor + exact heap-allocation accounting (ReadMemStats deltas) + RLIMIT_AS child processes + re-encode fixpoint over mutation families",
          "Hostile inputs (every truncation, bit flips, every count field inflated up to 2^32-1, bad type/byte-order codes, 7000-level nesting, random bytes, malformed hex, grammar-generated JSON with arbitrary coordinates shapes, hand-built Geometry values) are fed to the decoders; each call must return a well-formed geometry or an error, allocate <= K*len+C bytes, never panic or kill the process, and successful decodes must be fixpoints of encode/decode.",
          "'Bounded by a constant multiple' is decided in the restated form dAlloc <= 64*len+64KiB (WKB/hex), 256*len+64KiB (GeoJSON); inputs <= 64 KiB.", "§4 C07"),
+ "C11": ("runtime monitor: brute-force multiset reference model + invariant walker on hooked node structure after every operation of generated insert/delete histories",
+         "Histories (grow, drain to empty, refill, oscillation around split/underflow sizes, ordered/reverse/random deletes, absent and duplicate objects) for all valid branching parameters are run against the real tree; after EVERY operation Size/Delete results/6 SearchIntersect queries are compared with a brute-force multiset scan and the verif-tagged snapshot of the nodes is walked for balance, Depth, exact envelopes, fan-out and object count.",
+         "Needs hook H1 (read-only snapshot, build tag verif); objects comparable as the property states; parent/level consistency recorded only.", "§4 C11"),
+ "C12": ("runtime monitor: brute-force k-smallest-distance oracle on trees produced by insert/delete histories (walker-confirmed shapes)",
+         "NearestNeighbor and NearestNeighbors(k) for k in {1,2,3,5,Size-1,Size,Size+3} are queried at points inside boxes, on borders/corners, outside the root box and far away on trees reached by C11-style histories; results must be stored objects, distinct as multiset elements, in non-decreasing distance order, with exactly the k smallest box distances, nil beyond Size.",
+         "Ties compared by distance (1e-12 relative); tree-shape coverage (depth, root collapses) taken from hook H1.", "§4 C12"),
+ "C13": ("runtime monitor: bounded-progress step hook + exact subsequence/tolerance/simplicity oracles over generated curves",
+         "Curves of 0..400 pairwise-distinct vertices (simple walks, hooks returning to the start, spirals, zigzags, near-collinear runs, unfiltered random lines) are simplified with tolerances {0, tiny, U(0,d), >d, +Inf}; the hooked loop counter turns non-termination into a finite violation; outputs must be order-preserving subsequences keeping both endpoints, dropped vertices within tolerance of their replacing segment (extended precision), exactly simple when the input is exactly simple, input untouched, members of multi-geometries simplified independently.",
+         "Needs hook H3; 'terminates' decided as bounded progress (<= 4n^2+100 loop steps, output never longer than input).", "§4 C13"),
+ "C14": ("runtime monitor: harness reference clipping (exact crossing tests + midpoint membership) as oracle",
+         "Simple lines / multi-lines against valid polygons with holes, multi-polygons and boxes in general position: total clipped length must equal the reference inside length (1e-9), every returned vertex must lie on the line and inside or on the polygon (1e-9 d), the result is empty exactly when the reference length is 0; configurations inside/outside/bbox-disjoint/hole-crossing/multiple entries are counted.",
+         "General position and line simplicity enforced by exact predicates in the harness.", "§4 C14"),
+ "C15": ("runtime monitor: truth-by-construction oracle (perturbation / permutation / rotation positives; typed, structural and displacement negatives) + symmetry check",
+         "For base geometries of all eight types, derived partners with a known truth value are compared in both directions: true for <0.9 tol perturbations combined with documented reorderings and ring rotations; false for other types, inserted/deleted members (incl. empty ones) or vertices, reversed line strings, single-vertex displacements > tol; g.Similar(h) must equal h.Similar(g) always.",
+         "Members separated by >> tol, closed rings with a unique anchor vertex (domain restrictions stated by the property).", "§4 C15"),
  "C17": ("runtime monitor: independent OGC WKT recursive-descent parser as oracle, bitwise comparison",
          "The text produced for every generated geometry of the five supported types must be accepted by an independently written strict OGC tagged-text parser and parse to a bitwise-identical geometry; MultiPoint, GeometryCollection and *Bounds must be rejected with an error.",
          "Trusts the harness's 200-line WKT parser and strconv.ParseFloat; members with >= 1 vertex only (as the property states).", "§4 C17"),
